@@ -19,7 +19,11 @@
 #include <string.h>
 
 int libwifi_tag_iterator_init(struct libwifi_tag_iterator *it, const void *tags_start, size_t data_len) {
-    if (data_len <= 0) {
+    // The first tag header must be present, and the first tag must fit inside the supplied data
+    if (data_len < sizeof(struct libwifi_tag_header)) {
+        return -EINVAL;
+    }
+    if (((const struct libwifi_tag_header *) tags_start)->tag_len > data_len - sizeof(struct libwifi_tag_header)) {
         return -EINVAL;
     }
 
